@@ -40,8 +40,30 @@ func NewExec(prop string, cfg Config) *Exec {
 	return ex
 }
 
+// probeGens draw the payload of a probe for the property (nil: the property uses no probes)
+var probeGens = map[string]func(t *rapid.T, g *GenState) string{}
+
+// probes observe the state on a branch (nothing is committed): property -> function
+var probes = map[string]func(e *Exec, payload string) []Violation{}
+
 // Do executes one action; returns the step record and the violations the oracle raised.
 func (e *Exec) Do(a Action) (*StepRec, []Violation) {
+	if a.Kind == KProbe {
+		e.Acts = append(e.Acts, a)
+		snap := e.W.Snapshot()
+		rec := &StepRec{Index: e.W.steps, Action: a, Pre: snap, Post: snap, OK: true, Height: e.W.Height(), TimeNs: e.W.TimeNs()}
+		var vs []Violation
+		if p := probes[e.Prop]; p != nil {
+			saved := e.W.ctx
+			branch, _ := saved.CacheContext()
+			e.W.ctx = branch
+			cbs, mo, mi := len(e.W.cbs), len(e.W.modOuts), e.W.modIdx
+			vs = p(e, a.Extra)
+			e.W.ctx = saved
+			e.W.cbs, e.W.modOuts, e.W.modIdx = e.W.cbs[:cbs], e.W.modOuts[:mo], mi
+		}
+		return rec, vs
+	}
 	rec := e.W.Step(a)
 	e.Acts = append(e.Acts, a)
 	var vs []Violation
@@ -183,6 +205,8 @@ func (e *runEnv) historyProperty(t *rapid.T) {
 		var a Action
 		if i < len(prelude) {
 			a = prelude[i]
+		} else if pg := probeGens[e.prop]; pg != nil && i > len(prelude) && pct(t, "probe", 6) {
+			a = Action{Kind: KProbe, Extra: pg(t, g)}
 		} else {
 			a = g.GenAction(t)
 		}
